@@ -121,6 +121,19 @@ EncodeValue(e) ==
     /\ Chk(e, "C16", "concurrent_encode_is_pure", (spec.ok => (okc /\ e.out.b = spec.b)) /\ (~spec.ok => ~okc))
     /\ Chk(e, "C16", "decode_depends_only_on_the_bytes",
            (dom03 /\ okc) => (e.dec.r = "ok" /\ e.dec.n = Len(e.out.b) /\ SameValue(e.dec.v, want)))
+    \* the same call, executed again after a storm of other calls in the same interpreter, returns what it returned first
+    /\ (IF "first" \in DOMAIN e
+        THEN LET \* (the first execution may have run under the other setting of the switch: compared only where the
+                 \* specified result does not depend on it)
+                 other == SpecEnc(e.pos, ~legacy, v)
+                 indep == other.ok = spec.ok /\ (spec.ok => other.b = spec.b)
+                 same == ~indep \/ (e.first.r = e.out.r /\ (e.out.r = "ok" => e.first.b = e.out.b)) IN
+             /\ Chk(e, "C12", "same_result_as_before_the_storm", same)
+             /\ Chk(e, "C16", "same_result_as_before_the_storm", same)
+             /\ Chk(e, "C03", "same_result_as_before_the_storm", same)
+             /\ Chk(e, "C04", "same_result_as_before_the_storm", same)
+             /\ Chk(e, "C10", "same_result_as_before_the_storm", same)
+        ELSE TRUE)
     \* C12: deterministic, input untouched, keys ascending at every level
     /\ Chk(e, "C12", "second_encoding_identical", okc => (e.out2.r = "ok" /\ e.out2.b = e.out.b))
     /\ Chk(e, "C12", "input_not_mutated", e.post = e.in)
@@ -191,6 +204,21 @@ RoundTrip(e) ==
     /\ Chk(e, "C16", "concurrent_encode_is_pure", (spec.ok => (okc /\ e.out.b = spec.b)) /\ (~spec.ok => ~okc))
     /\ Chk(e, "C16", "concurrent_decode_is_pure",
            dec => LET r == Unmarshal(e.out.b) IN r.k = "frame" => (un.n = r.n /\ un.ch = r.ch /\ SameDecoded(r.f, un.f)))
+    \* C15: a frame that carries timestamps (property, header table, arguments): the zone-free reference decides
+    /\ Chk(e, "C15", "frame_bytes_independent_of_time_zone", spec.ok => (okc /\ e.out.b = spec.b))
+    /\ Chk(e, "C15", "frame_decodes_to_the_encoded_instants",
+           dec => LET r == Unmarshal(e.out.b) IN r.k = "frame" => (un.n = r.n /\ SameDecoded(r.f, un.f)))
+    /\ (IF "first" \in DOMAIN e
+        THEN LET other == Marshal(~legacy, f, ch)
+                 indep == other.ok = spec.ok /\ (spec.ok => other.b = spec.b)
+                 same == ~indep \/ (e.first.r = e.out.r /\ (e.out.r = "ok" => e.first.b = e.out.b)) IN
+             /\ Chk(e, "C12", "same_result_as_before_the_storm", same)
+             /\ Chk(e, "C16", "same_result_as_before_the_storm", same)
+             /\ Chk(e, "C01", "same_result_as_before_the_storm", same)
+             /\ Chk(e, "C02", "same_result_as_before_the_storm", same)
+             /\ Chk(e, "C04", "same_result_as_before_the_storm", same)
+             /\ Chk(e, "C18", "same_result_as_before_the_storm", same)
+        ELSE TRUE)
     \* C12: deterministic and non-mutating
     /\ Chk(e, "C12", "second_encoding_identical", okc => (e.out2.r = "ok" /\ e.out2.b = e.out.b))
     /\ Chk(e, "C12", "frame_not_mutated", e.post = e.in)
@@ -264,6 +292,9 @@ CatalogEntry(e) ==
     /\ Chk(e, "C14", "constructor_defaults",
            (known /\ Len(e.defaults) = n) => \A i \in 1..n : DefaultOk(e.defaults[i], m.args[i]))
     /\ Chk(e, "C14", "documented_defaults", (known /\ Len(e.docs) = n) => \A i \in 1..n : e.docs[i] = m.args[i].doc)
+    \* arguments given by POSITION are taken in wire order (first pass only: values passed by position, read back by name)
+    /\ Chk(e, "C14", "constructor_takes_arguments_in_wire_order",
+           ("pos_in" \in DOMAIN e /\ Len(e.pos_in) > 0) => e.pos_back = e.pos_in)
     /\ UNCHANGED st
 
 PropertiesEntry(e) ==
